@@ -13,6 +13,7 @@ import shutil
 
 import vlib
 from props import c10_gen as G
+from props import c10_fragment as F
 
 HARNESS_BINS = ["vh_c10"]
 NEEDS_FRUGAL = True
@@ -236,6 +237,32 @@ def json_view_check(ctx, prog, rundir):
 
 # ---- programs (several files) -----------------------------------------------------------------------
 
+def break_typedef_cycles(m):
+    """ParseFrugal rejects typedefs defined in terms of themselves (repo fix 9b849ec); the model generator lets a
+    typedef name any type of its file, so two typedefs can name each other: cut such cycles (same marking
+    algorithm as validateTypedefs) by making the unresolved typedefs aliases of i32."""
+    tds = [d for k, d in m["decls"] if k == "typedef"]
+    names = {d["name"] for d in tds}
+
+    def refs(t, acc):
+        if t is None:
+            return acc
+        acc.add(t["name"])
+        refs(t["key"], acc)
+        refs(t["val"], acc)
+        return acc
+    resolved, progress = set(), True
+    while progress:
+        progress = False
+        for d in tds:
+            if d["name"] not in resolved and not ((refs(d["type"], set()) & names) - resolved):
+                resolved.add(d["name"])
+                progress = True
+    for d in tds:
+        if d["name"] not in resolved:
+            d["type"] = {"name": b"i32", "key": None, "val": None, "anns": []}
+
+
 def gen_program(ctx, rng, idx):
     nfiles = rng.choice([1, 1, 2, 2, 3, 4])
     names = []
@@ -258,6 +285,7 @@ def gen_program(ctx, rng, idx):
         # several scopes per file (ParseFrugal sorts them by name) and services (duplicate-name validation)
         extra = ["scope"] * rng.choice([0, 2, 3]) + ["service"] * rng.choice([0, 1, 2])
         m = gen.model(includes=incs, extra_kinds=extra)
+        break_typedef_cycles(m)
         models[names[i]] = m
         envs[names[i]] = m
     files = {n: G.Renderer(rng).render(models[n]) for n in names}
@@ -371,6 +399,73 @@ def shrink_failure(ctx, model, rounds=8):
 
 # ---- main ------------------------------------------------------------------------------------------
 
+def run_fragment(ctx, rng, n):
+    """The PROVED fragment (theorem c10_roundtrip_structs_partial): generated descriptions of files inside it,
+    rendered, parsed by the real parser; direct oracle = the declared model; the judge JParserFragment checks
+    inside Coq that each description satisfies the theorem's hypotheses, that the theorem's rendering is the
+    parsed text, and that the implementation returned the theorem's tree."""
+    descs, feats, hazard_ix = [], {}, set()
+    for i in range(n):
+        g = F.FragGen(rng, size=1.0 if i % 5 else 2.0)
+        d = g.file()
+        descs.append((d, F.render(d)))
+        for f in g.features:
+            feats[f] = feats.get(f, 0) + 1
+    for i in range(2 if n < 200 else 6):
+        d = F.FragGen(rng).hazard_enum_overflow()
+        hazard_ix.add(len(descs))
+        descs.append((d, F.render(d)))
+    resps = run_harness([{"op": "parse", "text": t.hex()} for _, t in descs])
+    if len(resps) != len(descs):
+        raise RuntimeError("harness answered %d of %d fragment requests" % (len(resps), len(descs)))
+    failed = set()
+    for i, ((d, t), r) in enumerate(zip(descs, resps)):
+        why = oracle_parse({"kind": "valid", "canon": G.canon(F.to_model(d))}, r)
+        if why:
+            failed.add(i)
+            hz = "enum_value_after_max_int64" if i in hazard_ix else None
+            ctx.violation("C10 oracle (proved fragment): " + why,
+                          {"idl_text": t.decode("utf8", "backslashreplace"), "text_hex": t.hex(), "hazard": hz,
+                           "observed": {k: r.get(k) for k in ("code", "msg")},
+                           "theorem": "c10_enum_numbering_overflow_refuted" if hz else "c10_roundtrip_structs_partial"},
+                          signature={"hazard": hz} if hz else None)
+    jcases = [[t, d["w0"], F.to_tok(d), r.get("code", 103), G.from_json(r["ast"]) if r.get("code") == 0 else []]
+              for (d, t), r in zip(descs, resps)]
+    verdicts = vlib.run_judge(ctx.rundir, "JParserFragment", "judge", jcases, shard=400000, name="jf")
+    why_v = {-1: "the implementation's tree is not the tree the theorem gives for this text",
+             -2: "fragment description does not decode (generator / judge out of step)",
+             -3: "generated description is outside the hypotheses of the theorem (generator fault)",
+             -4: "the generator's text is not the theorem's rendering of the description (generator fault)"}
+    for i, v in enumerate(verdicts):
+        if v < 0 and not (v == -1 and i in failed and i not in hazard_ix):
+            d, t = descs[i]
+            ctx.violation("C10 proved fragment: " + why_v.get(v, "judge verdict %d" % v),
+                          {"idl_text": t.decode("utf8", "backslashreplace"), "text_hex": t.hex(),
+                           "observed": {k: resps[i].get(k) for k in ("code", "msg")},
+                           "no_failing_input_found": v != -1,
+                           "broken": "Judge/JParserFragment.v (c10_roundtrip_structs_partial / c10_fragment_check_sound)"})
+    tags = {}
+    for v in verdicts:
+        tags[v] = tags.get(v, 0) + 1
+    return {
+        "theorem": "c10_roundtrip_structs_partial (with c10_fragment_check_sound: the judge's check implies its hypotheses)",
+        "declaration_kinds_inside": F.KINDS_INSIDE,
+        "render_styles_inside": F.STYLES_INSIDE,
+        "outside": F.OUTSIDE,
+        "cases": len(descs),
+        "instances_accepted_by_judge": len([v for v in verdicts if v >= 0]),
+        "judge_rejections": len([v for v in verdicts if v < 0]),
+        "oracle_failures": len(failed - hazard_ix),
+        "hazard_cases": len(hazard_ix),
+        "hazard_cases_failing_the_oracle_as_known": len(failed & hazard_ix),
+        "kind_sets_seen": {str(k - 5000): c for k, c in sorted(tags.items()) if k >= 5000},
+        "kind_set_legend": "bit set: 1 typedef, 2 enum, 4 struct/exception/union, 8 const, 16 service",
+        "render_styles_exercised": dict(sorted(feats.items())),
+        "bytes": sum(len(t) for _, t in descs),
+        "sample": [trunc(t, 300) for _, t in descs[:2]],
+    }
+
+
 def run(ctx, br):
     rng = ctx.rng
     quick = ctx.tier == "quick"
@@ -429,6 +524,7 @@ def run(ctx, br):
         for i in range(n_hazard_each):
             gen = G.Gen(rng)
             m = G.hazard_model(gen, hz)
+            break_typedef_cycles(m)
             name = ("hz%d.frugal" % i).encode()
             progs.append({"files": {name: G.Renderer(rng, plain=True).render(m)}, "root": name, "models": {name: m},
                           "hazard": hz})
@@ -495,6 +591,8 @@ def run(ctx, br):
         rep["broken"] = "correspondence JParser.judge (Model/Parser.v disagrees with the real parser on this text)"
         ctx.violation("C10 correspondence: model and implementation disagree", rep)
 
+    frag = run_fragment(ctx, rng, 60 if quick else 600)
+
     feats = {}
     for c in cases:
         for f in c["features"]:
@@ -517,14 +615,15 @@ def run(ctx, br):
         "line/column of parser errors are not modelled (offset, rule and message class are)",
     ]
     return {
-        "evaluations": len(cases) + len(progs),
+        "evaluations": len(cases) + len(progs) + frag["cases"],
         "distinct_nontrivial": distinct,
         "rule": "seeded IDL models (all declaration kinds, annotations in every position, doc comments, containers, "
                 "constants incl. lists/maps/identifier references/doubles, includes across 1-4 files) rendered in random "
                 "lexical styles; hazard cases (one Thrift-valid construct the grammar mishandles each); mutated texts. "
                 "non-trivial = accepted well-formed text with >= 1 declaration; distinct by text",
-        "traces_validated_against_impl": len([v for v in verdicts if v >= 0]),
-        "judge_mismatches": len(mism) + len([v for v in pverdicts if v < 0]),
+        "traces_validated_against_impl": len([v for v in verdicts if v >= 0]) + frag["instances_accepted_by_judge"],
+        "proved_fragment": frag,
+        "judge_mismatches": len(mism) + len([v for v in pverdicts if v < 0]) + frag["judge_rejections"],
         "programs_validated_against_impl": len([v for v in pverdicts if v >= 0]),
         "program_branch_tags": {str(k): pverdicts.count(k) for k in sorted(set(pverdicts))},
         "oracle_failures": oracle_fail,
